@@ -191,6 +191,34 @@ func (w *w1World) checkSettled() {
 			}
 		}
 	}
+	// C26: the node is broker-subscribed to exactly the channels with local subscribers
+	if w.pubsub != nil {
+		chs := map[string]bool{}
+		for _, ch := range w.sc.Channels {
+			chs[ch] = true
+		}
+		for ch := range w.pubsub.subscribed {
+			chs[ch] = true
+		}
+		var names []string
+		for ch := range chs {
+			names = append(names, ch)
+		}
+		sort.Strings(names)
+		for _, ch := range names {
+			local := w.node.hub.NumSubscribers(ch)
+			bs := w.pubsub.subscribed[ch]
+			s.Probe("nontrivial:C26")
+			switch {
+			case local > 0 && bs <= 0:
+				s.Violate("C26", "interest-without-broker-subscription", "local subscribers but no broker subscription", "%s: %d local subscribers, broker subscription count %d", ch, local, bs)
+			case local == 0 && bs > 0:
+				s.Violate("C26", "broker-subscription-leak", "broker subscription without local subscribers after settling", "%s: no local subscribers, broker subscription count %d", ch, bs)
+			case bs > 1 || bs < 0:
+				s.Violate("C26", "broker-subscription-count", "unbalanced broker subscribe/unsubscribe calls", "%s: broker subscription count %d", ch, bs)
+			}
+		}
+	}
 	// C06: presence reflects settled subscriptions
 	for _, ch := range w.sc.Channels {
 		if !chHas(ch, 'e') {
